@@ -225,6 +225,7 @@ def run(ctx: Ctx) -> None:
     asyncio.run(end_to_end(ctx, 150 if thorough else 40))
     delete_correspondence(ctx, built)
     lifespan_table_effective(ctx)
+    lifespan_branches_effective(ctx)
     deferred_correspondence(ctx, built, 120 if ctx.tier == "thorough" else 40)
     array_pick_correspondence(ctx, built, 600 if ctx.tier == "thorough" else 200)
     gw.run_async(config_updates, ctx, 60 if ctx.tier == "thorough" else 16)
@@ -676,9 +677,75 @@ def lifespan_table_effective(ctx: Ctx) -> None:
                 ctx.dist[f"lifetime-table:packet-rejected:{type(err).__name__}"] += 1
                 continue
             ctx.case(("lifetime-entry", name, i), True, "lifetime-table-entry")
-            if got != want:
+            if got != (want or False):
                 ctx.violation(f"lifetime-table-entry-without-effect:3220:{name}", f"an OpenTherm message with data-id {i:02X} (listed in {name}) gets the lifetime {got}, its table entry says {want}",
                               {"frame": line, "lifetime": str(got), "table_entry": str(want), "class": name}, "input")
+
+
+def lifespan_branches_effective(ctx: Ctx) -> None:
+    """... and likewise for the entries selected by the packet's code (with its verb / array form): for every `if pkt.code == / in (...) [and ...]: return <lifetime>`
+    of pkt_lifespan, a recorded packet of each code named there that meets the other conjuncts gets that lifetime -- unless an earlier entry claims it."""
+    import ast  # noqa: PLC0415
+    import inspect  # noqa: PLC0415
+    import textwrap  # noqa: PLC0415
+
+    import ramses_tx.packet as P  # noqa: PLC0415
+
+    from .. import corpus  # noqa: PLC0415
+
+    try:
+        fn = ast.parse(textwrap.dedent(inspect.getsource(P.pkt_lifespan))).body[0]
+    except Exception:  # noqa: BLE001
+        return
+    pkts = {}
+    for _, dtm, line in corpus.log_lines():
+        try:
+            pk = P.Packet.from_file(dtm, line.split("#")[0].rstrip())
+            pkts.setdefault((pk.code, pk.verb, bool(pk._has_array)), pk)
+        except Exception:  # noqa: BLE001, S112
+            continue
+    earlier = []          # (codes, other conjuncts) of the entries above the current one
+    checked = 0
+    for node in fn.body:
+        if not (isinstance(node, ast.If) and node.body and isinstance(node.body[0], ast.Return)):
+            continue
+        conj = node.test.values if isinstance(node.test, ast.BoolOp) and isinstance(node.test.op, ast.And) else [node.test]
+        code_c = [c for c in conj if isinstance(c, ast.Compare) and ast.unparse(c.left) == "pkt.code"]
+        other = [c for c in conj if c not in code_c]
+        if len(code_c) != 1 or not isinstance(code_c[0].ops[0], ast.Eq | ast.In):
+            if any("pkt.code" in ast.unparse(c) for c in conj):
+                continue
+            earlier.append((None, conj))
+            continue
+        rhs = code_c[0].comparators[0]
+        try:
+            codes = [str(eval(compile(ast.Expression(e), "<c>", "eval"), vars(P))) for e in (rhs.elts if isinstance(rhs, ast.Tuple | ast.List | ast.Set) else [rhs])]  # noqa: S307
+        except Exception:  # noqa: BLE001
+            continue
+
+        def holds(cs, pk):
+            try:
+                return all(eval(compile(ast.Expression(c), "<t>", "eval"), vars(P), {"pkt": pk}) for c in cs)  # noqa: S307
+            except Exception:  # noqa: BLE001
+                return False
+
+        for code in codes:
+            for (c, v, a), pk in pkts.items():
+                if c != code or not holds(other, pk):
+                    continue
+                if any((ec is None or code in ec) and holds(eo, pk) for ec, eo in earlier):
+                    continue
+                try:
+                    want = eval(compile(ast.Expression(node.body[0].value), "<r>", "eval"), vars(P), {"pkt": pk})  # noqa: S307
+                except Exception:  # noqa: BLE001, S112
+                    continue
+                checked += 1
+                ctx.case(("lifetime-branch", code, v, a), True, "lifetime-table-entry")
+                if pk._lifespan != (want or False):       # Packet keeps `pkt_lifespan(self) or False`
+                    ctx.violation(f"lifetime-table-entry-without-effect:{code}", f"{pk} gets the lifetime {pk._lifespan}; the table entry for code {code} (line {node.lineno} of pkt_lifespan) says {want}",
+                                  {"frame": str(pk), "lifetime": str(pk._lifespan), "table_entry": str(want)}, "input")
+        earlier.append((codes, other))
+    ctx.dist["lifetime-table:code-entries-checked"] += checked
 
 
 def Packet_from(line):
